@@ -41,6 +41,7 @@ type Gen struct {
 	simRate  float64 // share of transactions that are simulated (on a discarded branch) right before being delivered
 	batchRate float64 // share of transactions that open a multi-message transaction (the next 1..4 transactions share a branch)
 	batchLeft int     // messages still to go into the open multi-message transaction
+	hold     bool  // ops emitted while set carry blk=same: they stay in the block of the op before them
 	capture  *[]Op // when set, ops are collected instead of executed (used by the crash scenario)
 	stats    map[string]int
 }
@@ -95,6 +96,9 @@ func (g *Gen) emit(op Op) string {
 			// anything that is not part of a transaction closes the open one first
 			g.endBatch()
 		}
+	}
+	if g.hold {
+		op.KV.set("blk", "same")
 	}
 	line := op.String()
 	// the op is on disk BEFORE it runs: if the implementation takes the whole process down (a fatal runtime error is
